@@ -247,4 +247,11 @@ theorem resizeAxes_eq_rev (mode : Mode) (dir : Dir) :
   | _ :: _, [], _, _, _ => by simp [resizeAxes, resizeAxesRev]
   | _ :: _, _ :: _, [], _, _ => by simp [resizeAxes, resizeAxesRev]
 
+omit [DecidableEq K] in
+theorem LinArr.smul {G : (Nat → K) → Nat → K} (hG : LinArr G) (a : K)
+    (y : Nat → K) (i : Nat) : G (fun t => a * y t) i = a * G y i := by
+  obtain ⟨l, hl⟩ := hG i
+  simp only [] at hl
+  rw [hl, hl, rowSum_smul]
+
 end OdlModel.Resize
